@@ -529,11 +529,19 @@ def probes (n p : Nat) (l : Lit) : List (List Arg) :=
   (sibSet.map (fun d => mk (.tensor d true))) ++ (sibSet.map (fun d => mk (.tensor d false)))
     ++ [mk .none, mk (.lit l)]
 
-/-- A literal is homogeneous and every element is representable in dtype `dt`. -/
-def litRepresentable (l : Lit) (dt : DType) : Bool :=
-  l.homogeneous && l.elems.all (fun e => representable e dt)
+/-- The detour through the default dtype is exact for this element: an int inside a list that NumPy infers as DOUBLE
+(a list mixing ints and floats) must be exactly a double. -/
+def viaOk (d0 : DType) (e : Scalar) : Bool :=
+  match e with
+  | .i v => !(d0.beq .double) || decide (v.natAbs ≤ 9007199254740992)
+  | _ => true
 
-/-- Every literal of an argument list is homogeneous and representable in the dtype the rule assigns to it. -/
+/-- Every element is representable in dtype `dt` (and survives the list's default dtype exactly).  Lists mixing
+Python types are included since fa769b8. -/
+def litRepresentable (l : Lit) (dt : DType) : Bool :=
+  l.elems.all (fun e => representable e dt && viaOk (irDefault l) e)
+
+/-- Every literal of an argument list is representable in the dtype the rule assigns to it. -/
 def allRepresentable {κ : Type} [DecidableEq κ] (fs : List (Formal κ)) (args : List Arg) : Bool :=
   match assign fs args with
   | .error _ => true
